@@ -219,6 +219,24 @@ def case_linear(rep):
         As = svk.hessian([np.eye(3).reshape(3, 3, 1, 1), None])[0][..., 0, 0]
         compare(run, "LinearElasticOrthotropic~svk_orthotropic(F=I)", "elasticity", As, Ao, maxabs(Ao), 1e-10, "linear:orthotropic",
                 sample={"pair": "orthotropic", "E": Eo, "nu": nuo, "G": Go})
+        # ... for material axes in general position (the linear law is rotated into them by the oracle) and for every
+        # Seth-Hill exponent (all strain measures coincide to first order at the undeformed state)
+        from ..util import random_rotation
+        Qr = random_rotation(rng, 3)
+        for axes, Q in (("aligned", I3[:, [1, 2, 0]] if rep % 2 else I3), ("rotated", Qr)):
+            Aq = np.einsum("ia,jb,kc,ld,abcd->ijkl", Q, Q, Q, Q, Ao)
+            for k in (2, 1, 0, float(np.round(rng.uniform(-2, 3), 2))):
+                kw = {} if k == 2 else {"k": k}
+                svk = fem.Hyperelastic(fem.saint_venant_kirchhoff_orthotropic, mu=muo, lmbda=lmo, r1=Q[:, 0], r2=Q[:, 1],
+                                       r3=(None if rep % 2 else Q[:, 2]), **kw)
+                As = svk.hessian([np.eye(3).reshape(3, 3, 1, 1), None])[0][..., 0, 0]
+                kk = k if k in (2, 1, 0) else "real"
+                pair = "LinearElasticOrthotropic~svk_orthotropic(F=I,%s axes,k%s)" % (axes, "=2" if k == 2 else "!=2")
+                unit = "linear:orthotropic:%s:k=%s" % (axes, kk)
+                compare(run, pair, "elasticity", As, Aq, maxabs(Ao), 1e-10 if k == 2 else 1e-5, unit,
+                        sample={"pair": "orthotropic " + axes, "k": k, "E": Eo, "nu": nuo, "G": Go})
+                Ps = svk.gradient([np.eye(3).reshape(3, 3, 1, 1), None])[0][..., 0, 0]
+                compare(run, pair, "stress-free", Ps, 0 * Ps, maxabs(Ao), 1e-10 if k == 2 else 1e-5, unit)
         # with equal constants the orthotropic law is the isotropic one
         G = E / (2 * (1 + nu))
         lo_iso = fem.LinearElasticOrthotropic(E=[E] * 3, nu=[nu] * 3, G=[G] * 3)
@@ -295,7 +313,7 @@ def _required():
             "NeoHookeCompressible~jax.total_lagrange(S):stress",
             "OgdenRoxburgh(NeoHooke)~tt.ogden_roxburgh(neo_hooke):stress", "OgdenRoxburgh(NeoHooke)~tt.ogden_roxburgh(neo_hooke):statevars",
             "linear:definition", "linear:tensor-notation", "linear:material-strain", "linear:plane-strain", "linear:plane-stress",
-            "linear:orthotropic", "linear:orthotropic-iso"]
+            "linear:orthotropic", "linear:orthotropic-iso", "linear:orthotropic:rotated:k=2", "linear:orthotropic:rotated:k=1", "linear:orthotropic:rotated:k=0", "linear:orthotropic:rotated:k=real", "linear:orthotropic:aligned:k=2", "linear:orthotropic:aligned:k=1", "linear:orthotropic:aligned:k=0", "linear:orthotropic:aligned:k=real"]
     reg_mu = ["NeoHooke(mu,bulk)", "NeoHookeCompressible(mu,lmbda)", "LinearElasticLargeStrain(E,nu)", "tt.neo_hooke", "tt.mooney_rivlin", "tt.yeoh",
               "tt.third_order_deformation", "tt.blatz_ko", "tt.van_der_waals", "tt.storakers", "tt.extended_tube[delta=0]", "tt.ogden",
               "tt.arruda_boyce", "tt.alexander", "tt.anssari_benam_bucchi", "tt.lopez_pamies", "tt.saint_venant_kirchhoff", "jax.neo_hooke",
